@@ -175,3 +175,136 @@ def c_compound_merge(h):
             h.ensure("C17.compound_merge.assumptions_are_intersection", u.union_sat(ga(r)) == z3.And(u.union_sat(ga(c1)), u.union_sat(ga(c2))))
             h.ensure("C17.compound_merge.guarantees_are_intersection", u.union_sat(gg(r)) == z3.And(u.union_sat(gg(c1)), u.union_sat(gg(c2))))
     h.frame_ok(out, "C13.frame")
+
+
+# ------------------------------------------------------------------------------------------------
+# equality of nested lists and of compound contracts (C19: compundiocontract.py is one of its anchors)
+# ------------------------------------------------------------------------------------------------
+def _memoise_refines(u):
+    """P-refines.function: the same refinement question gets the same answer (needed to speak about symmetry)."""
+    from pyvc.core import NativeFn
+
+    orig = u.AbsTL.ns["refines"].fn if hasattr(u.AbsTL.ns["refines"], "fn") else None
+    memo = {}
+
+    def refines(I, a, k):
+        key = (id(a[0]), id(a[1] if len(a) > 1 else k.get("other")))
+        if key not in memo:
+            memo[key] = orig(I, a, k)
+        else:
+            u.calls.append({"op": "refines", "self": a[0], "other": a[1] if len(a) > 1 else k.get("other"), "result": memo[key], "repeated": True})
+        return memo[key]
+
+    if orig is not None:
+        u.AbsTL.ns["refines"] = NativeFn("refines", refines)
+    return orig is not None
+
+
+@contract("NestedTermList.__eq__", ["C19", "C14", "C13"], [CMP + ":NestedTermList.__eq__", CMP + ":NestedTermList.__le__", "pacti.iocontract.iocontract:TermList.__le__"], "U", bound="0-2 alternatives per side; alternatives are abstract constraint lists", assumes=["P-refines", "P-refines.function: the same refinement question gets the same answer"], covers=["return"])
+def c_nested_eq(h):
+    u = UC(h)
+    h.check("engine.refines_memoised", _memoise_refines(u), "cannot wrap the refines primitive")
+    A, Bn = u.nested("A", _n(h, "na", 0, 2)), u.nested("B", _n(h, "nb", 0, 2))
+    a_items, b_items = list(A.attrs["nested_termlist"].items), list(Bn.attrs["nested_termlist"].items)
+    out = h.call(h.method(A, "__eq__"), [Bn])
+    h.check("C14.nested_eq.no_exception", out.kind == "return", "raised %s at %s" % (out.exc_name, out.where))
+    if out.kind != "return":
+        return
+    h.cover("return")
+    rr = out.value if isinstance(out.value, z3.BoolRef) else z3.BoolVal(bool(out.value))
+    # True only for the same union of behaviours (at the skolem behaviour): both containments were established
+    h.ensure("C19.nested_eq.true_only_if_same_union", z3.Implies(rr, u.union_sat(a_items) == u.union_sat(b_items)))
+    # ... and a True answer rests on both directions: every alternative of either side was found inside one of the other
+    firsts = [c for c in u.calls_of("refines") if not c.get("repeated")]
+    for side, mine, theirs in (("left", a_items, b_items), ("right", b_items, a_items)):
+        for i, t in enumerate(mine):
+            found = [c["result"] for c in firsts if c["self"] is t and any(c["other"] is o for o in theirs)]
+            h.ensure("C19.nested_eq.true_only_if_%s_alternative_%d_refines_one_of_the_other_side" % (side, i), z3.Implies(rr, z3.Or(*found) if found else z3.BoolVal(False)))
+    back = h.call(h.method(Bn, "__eq__"), [A])
+    if back.kind == "return":
+        r2 = back.value if isinstance(back.value, z3.BoolRef) else z3.BoolVal(bool(back.value))
+        h.ensure("C19.nested_eq.symmetric", rr == r2)
+    else:
+        h.check("C14.nested_eq.no_exception_reversed", False, "raised %s" % back.exc_name)
+    h.check("C13.operands_unchanged", A.attrs["nested_termlist"].items == a_items and Bn.attrs["nested_termlist"].items == b_items, "operand modified")
+    h.frame_ok(out, "C13.frame")
+
+
+@contract("NestedTermList.__eq__[foreign]", ["C14"], [CMP + ":NestedTermList.__eq__"], "U", bound="comparison with an object of another class")
+def c_nested_eq_foreign(h):
+    u = UC(h)
+    A = u.nested("A", 1)
+    out = h.call(h.method(A, "__eq__"), [u.termlist("t")])
+    h.check("C14.nested_eq.foreign_is_valueerror", out.kind == "raise" and out.exc_is(h.I, ValueError), "%r" % (out,))
+
+
+@contract("IoContractCompound.__eq__", ["C19", "C14", "C13"], [CMP + ":IoContractCompound.__eq__", "pacti.iocontract.iocontract:Var.__eq__"], "U", bound="interface lists over {x,y} / {z,w} in every order (concrete); assumptions and guarantees are nested lists compared by the contract of NestedTermList.__eq__ (its answer is a free boolean per pair)", assumes=["contract of NestedTermList.__eq__ (proved above): a function of the two nested lists"], covers=["return"])
+def c_compound_eq(h):
+    u = UC(h)
+    INS = [["x"], ["x", "y"], ["y", "x"]]
+    OUTS = [["z"], ["w", "z"], ["z", "w"]]
+
+    def var(nm):
+        v = Obj(u.VarC, h.ctx)
+        v.attrs["_name"] = nm
+        return v
+
+    def compound(name):
+        ins = INS[h.ctx.choose(len(INS), name + ".in")]
+        outs = OUTS[h.ctx.choose(len(OUTS), name + ".out")]
+        c = Obj(u.Compound, h.ctx)
+        c.attrs["a"] = u.nested(name + "_a", 1)
+        c.attrs["g"] = u.nested(name + "_g", 1)
+        c.attrs["inputvars"] = PList([var(v) for v in ins], h.ctx)
+        c.attrs["outputvars"] = PList([var(v) for v in outs], h.ctx)
+        return c, ins, outs
+
+    c, ci, co = compound("c")
+    d, di, do = compound("d")
+    answers = {}
+    asked = []
+
+    def nested_eq(I, args, kwargs):
+        me, other = args[0], args[1]
+        key = frozenset((id(me), id(other)))
+        if key not in answers:
+            answers[key] = h.ctx.fresh_bool("nested_eq")
+        asked.append((me, other))
+        return answers[key]
+
+    h.I.stubs[CMP + ":NestedTermList.__eq__"] = nested_eq
+    out = h.call(h.method(c, "__eq__"), [d])
+    h.check("C14.compound_eq.no_exception", out.kind == "return", "raised %s at %s" % (out.exc_name, out.where))
+    if out.kind != "return":
+        return
+    h.cover("return")
+    rr = out.value if isinstance(out.value, z3.BoolRef) else z3.BoolVal(bool(out.value))
+    same_io = ci == di and co == do
+    ea = answers.get(frozenset((id(c.attrs["a"]), id(d.attrs["a"]))))
+    eg = answers.get(frozenset((id(c.attrs["g"]), id(d.attrs["g"]))))
+    # equal only if all four fields are equal: a True answer needs both nested comparisons to have been made and answered True
+    h.ensure("C19.compound_eq.true_only_if_interfaces_equal", z3.Implies(rr, z3.BoolVal(same_io)))
+    h.ensure("C19.compound_eq.true_only_if_assumptions_equal", z3.Implies(rr, ea if ea is not None else z3.BoolVal(False)))
+    h.ensure("C19.compound_eq.true_only_if_guarantees_equal", z3.Implies(rr, eg if eg is not None else z3.BoolVal(False)))
+    if same_io and ea is not None and eg is not None:
+        h.ensure("C19.compound_eq.true_if_all_four_equal", z3.Implies(z3.And(ea, eg), rr))
+    for me, other in asked:
+        ok = (me is c.attrs["a"] and other is d.attrs["a"]) or (me is c.attrs["g"] and other is d.attrs["g"]) or (me is d.attrs["a"] and other is c.attrs["a"]) or (me is d.attrs["g"] and other is c.attrs["g"])
+        h.check("C19.compound_eq.compares_like_with_like", ok, "a nested list was compared with a field of another kind")
+    back = h.call(h.method(d, "__eq__"), [c])
+    if back.kind == "return":
+        r2 = back.value if isinstance(back.value, z3.BoolRef) else z3.BoolVal(bool(back.value))
+        ea2 = answers.get(frozenset((id(c.attrs["a"]), id(d.attrs["a"]))))
+        eg2 = answers.get(frozenset((id(c.attrs["g"]), id(d.attrs["g"]))))
+        h.ensure("C19.compound_eq.symmetric", rr == r2)
+    h.frame_ok(out, "C13.frame")
+
+
+@contract("IoContractCompound.__eq__[foreign]", ["C14"], [CMP + ":IoContractCompound.__eq__"], "U", bound="comparison with an object of another class")
+def c_compound_eq_foreign(h):
+    u = UC(h)
+    c = Obj(u.Compound, h.ctx)
+    c.attrs["a"], c.attrs["g"] = u.nested("a", 1), u.nested("g", 1)
+    c.attrs["inputvars"], c.attrs["outputvars"] = PList([], h.ctx), PList([], h.ctx)
+    out = h.call(h.method(c, "__eq__"), [u.nested("n", 1)])
+    h.check("C14.compound_eq.foreign_is_valueerror", out.kind == "raise" and out.exc_is(h.I, ValueError), "%r" % (out,))
